@@ -104,6 +104,32 @@ func genC17(r *rand.Rand, t *Trace, thorough bool) {
 				if code == 3 {
 					t.Stat("lock.second_close")
 				}
+				// after Close EVERY further operation on the old handle fails cleanly: each kind is tried
+				for kind := 0; kind < 6; kind++ {
+					var uerr error
+					pan := catchPanic(func() {
+						switch kind {
+						case 0:
+							_, uerr = st.Add([]float32{1, 2}, "", nil)
+						case 1:
+							uerr = st.AddWithID(uint32(70000+kind), []float32{1, 2}, "", nil)
+						case 2:
+							uerr = st.Remove(12345)
+						case 3:
+							uerr = st.Flush()
+						case 4:
+							uerr = st.Train([][]float32{{1, 2}, {3, 4}})
+						default:
+							_, uerr = st.NewSearch().WithVector([]float32{1, 2}).WithK(3).Execute()
+						}
+					})
+					ucode := lockCode(uerr)
+					if pan {
+						ucode = 12
+					}
+					ops = append(ops, func(c *Case) { c.N(3).N(h).N(ucode) })
+					t.Stat("lock.closed_handle_sweep")
+				}
 			case x < 61: // Close racing Close (and operations) on one handle
 				if nextH == 1 {
 					continue
